@@ -4,6 +4,7 @@
      Proofs_take, Proofs_take2  takeCPUs        Proofs_alloc  results, policies, overshoot
      Proofs_hist    Allocate and the history invariants
      Proofs_spec    exact NUMA sums of Allocate, soundness of the deciders of Spec.v
-     Proofs_main    takePreferredCPUs complete; the model passes take_code *)
+     Proofs_main    takePreferredCPUs complete; the model passes take_code
+     Proofs_give    CPUs given back (preferred / preemptible): available set and owner limit *)
 From Verif Require Export C06.Proofs_base C06.Proofs_numa C06.Proofs_ledger C06.Proofs_gen
-  C06.Proofs_take C06.Proofs_take2 C06.Proofs_alloc C06.Proofs_hist C06.Proofs_spec C06.Proofs_main.
+  C06.Proofs_take C06.Proofs_take2 C06.Proofs_alloc C06.Proofs_hist C06.Proofs_spec C06.Proofs_main C06.Proofs_give.
